@@ -56,8 +56,9 @@ def build(chk):
                   'a variable without an entry in the bounds map is unbounded'}
     chk.assumptions += ['engine M uses the R-model (exact real arithmetic with IEEE rules for inf/NaN): monotonicity of IEEE rounding is a property of the arithmetic and outside this half of the claim',
                         'engine K harness crate /verif/kani links the real crate; counterexamples are replayed by Kani concrete playback (the harness run natively with the solver values)',
-                        'content_factor (continued-fraction approximation loop on f64) is NOT decided by a solver here: it runs only with concrete coefficients inside C13 and in the '
-                        'translator validation; the "smallest multiplier" clause of the property is therefore outside the claim',
+                        'content_factor ("smallest multiplier" clause): the continued-fraction loop of Rational64::approximate_float and the gcd/lcm of the external num crate are not symbolically tractable, '
+                        'so Function::content_factor is executed from MIR on CONCRETE rational coefficients only (every tuple over the listed pool, explored by the same executor, no solver variables) and '
+                        'compared with lcm(denominators)/gcd(numerators) in exact arithmetic: this sub-clause is bounded exhaustive exploration of the real code, not a solver verdict, and is labelled so',
                         'scaling by a non-zero number excludes 0 * inf (the property says non-zero)']
     chk.external('kani:bound-kernels', kani_job)
 
@@ -215,7 +216,65 @@ def build(chk):
                    (('quadratic', 2, 1), False, [(0, 1, 1, 1, 0)]), (('polynomial', (1, 3)), True, [(0, 0, 0, 1)])]
     for sh, cb, pats in shapes:
         chk.harness(f'evaluate_bound:{"/".join(map(str, sh))}{"/concrete-box" if cb else ""}', mk_evb(sh, cb, pats), max_paths=30000)
+    content_factor_harness(chk)
     chk.validation('Bound ops', lambda c: validate(c, mul, powb, evb))
+
+
+CF_POOL = [Fraction(x) for x in (1, 2, 3, 4, 6, -6, 10, 0)] + [Fraction(a, b) for a, b in ((1, 2), (1, 3), (2, 3), (3, 4), (3, 8), (-5, 6), (7, 60), (15, 2), (9, 10))]
+
+
+def content_factor_harness(chk):
+    import math
+    eng = chk.eng
+    cf = eng.method('content_factor', first_param='&v1::Function')
+    M = chk.M
+    chk.bounds['content_factor'] = ('concrete coefficients from the pool {' + ', '.join(str(x) for x in CF_POOL) + '} (each as its nearest binary64): constant; linear with 2 terms + constant (all triples); '
+                                    'quadratic with one product + one linear term; cubic monomial + constant (all pairs)')
+
+    def fv(x):
+        return FV('fin', Fraction(float(x)))
+
+    def mk(shape):
+        def h(P):
+            n = {'constant': 1, 'linear': 3, 'quadratic': 2, 'polynomial': 2}[shape]
+            cs = [CF_POOL[P.choose(len(CF_POOL))] for _ in range(n)]
+            if shape == 'constant':
+                f = M.function('Constant', fv(cs[0]))
+            elif shape == 'linear':
+                f = M.function('Linear', M.linear([(1, fv(cs[0])), (4, fv(cs[1]))], fv(cs[2])))
+            elif shape == 'quadratic':
+                f = M.function('Quadratic', M.quadratic([(1, 2, fv(cs[0]))], M.linear([(2, fv(cs[1]))], fv(Fraction(0)))))
+            else:
+                f = M.function('Polynomial', M.polynomial([([1, 1, 3], fv(cs[0])), ([], fv(cs[1]))]))
+            nz = [c for c in cs if c != 0]
+            if nz:
+                g, l = 0, 1
+                for c in nz:
+                    g = math.gcd(g, abs(c.numerator))
+                    l = l * c.denominator // math.gcd(l, c.denominator)
+                want = Fraction(l, g)
+            else:
+                want = Fraction(1)
+
+            def witness(model):
+                case = {'op': 'content_factor', 'f': chk.hexmsg(f, 'ommx.v1.Function', model)}
+                return case, (lambda res: 'ok' not in res or abs(res['ok'] - float(want)) > 1e-12 * float(want)), f'content_factor of {shape} with coefficients {[str(c) for c in cs]}: minimal multiplier is {want}'
+            try:
+                r = P.it.run_body(cf, [ref_to(f)])
+            except RustPanic:
+                P.fail('no-panic', witness)
+                return
+            if r.vname != 'Ok':
+                P.fail('multiplier-exists', witness)
+                return
+            a = r.f[0]
+            P.cover('integral-gcd>1', bool(nz) and all(c.denominator == 1 for c in nz) and want != 1)
+            P.cover('fractional', any(c.denominator != 1 for c in nz))
+            ok = isinstance(a, FV) and a.tag == 'fin' and isinstance(a.r, Fraction) and abs(a.r - want) <= Fraction(1, 10 ** 12) * want
+            P.require('smallest-integral-multiplier', ok, witness)
+        return h
+    for shape in ('constant', 'linear', 'quadratic', 'polynomial'):
+        chk.harness('content_factor:' + shape, mk(shape), regions=['integral-gcd>1', 'fractional'] if shape != 'constant' else ['fractional'], max_paths=6000)
 
 
 def validate(chk, mul, powb, evb):
@@ -227,6 +286,18 @@ def validate(chk, mul, powb, evb):
         lo = rng.choice([-math.inf, -2.0, -0.5, 0.0, 1.0])
         hi = rng.choice([x for x in [math.inf, 3.0, 0.5, 0.0, -0.25, 1.0] if x >= lo])
         return lo, hi
+    # content_factor: the binary64 port of approximate_float against the native crate (decimal, dyadic and irrational coefficients)
+    cfb = chk.eng.method('content_factor', first_param='&v1::Function')
+    for t in range(n):
+        cs = [rng.choice([round(rng.uniform(-5, 5), rng.randint(0, 4)), float(rng.choice(CF_POOL)), rng.uniform(-3, 3), float(rng.randint(-12, 12))]) for _ in range(3)]
+        fd = {'function': ('linear', {'terms': [{'id': 1, 'coefficient': cs[0]}, {'id': 2, 'coefficient': cs[1]}], 'constant': cs[2]})}
+        case = {'op': 'content_factor', 'f': chk.hexdict(fd, 'ommx.v1.Function')}
+        fv_ = chk.conv.from_dict(fd, 'ommx.v1.Function')
+
+        def py(it, fv_=fv_):
+            r = it.run_body(cfb, [ref_to(fv_)])
+            return ('ok', float(r.f[0].r)) if r.vname == 'Ok' else ('err',)
+        chk.validate('content_factor', py, case, lambda res: ('ok', res['ok']) if 'ok' in res else ('err',))
     for t in range(n):
         a, b = rb(), rb()
         e = rng.randint(0, 5)
